@@ -895,6 +895,9 @@ def tolerance_probes(R, rng, ptype, phase):
                     same_result(rec, got[aname], ref, ptype, tin, R.tol(scale, relmax_of(R, p_in)))
             rec.count(f'units:{aname}-atol-found-and-refused')
             rec.count(f'units:{phase}:{aname}-atol-judged')
+            if aname == 'default':
+                rec.count(f'units:{phase}:default-atol-judged:{U.label}')
+                rec.count(f'units:{phase}:default-atol-judged:{ptype}')
         if got.get('default') is not None and got.get('explicit') is not None:
             same_result(rec, got['default'], got['explicit'], ptype, f'units-{phase}:{form}', 0.0, clause=C_UNITS,
                         key=f'{ptype}:units-{phase}:default-atol-differs-from-explicit-0.01A')
@@ -1136,7 +1139,7 @@ def run(ctx):
     rec.floor('accept:db:negindex', 30)
     rec.floor('refuse:s:same-type', 30)
     # working units
-    rec.floor('clause:' + C_UNITS, 500)
+    rec.floor('clause:' + C_UNITS, 3000)
     rec.floor('units:cases-completed', 150)
     rec.floor('units:switches', 150)
     for a in UNIT_CONFIGS:
@@ -1144,13 +1147,18 @@ def run(ctx):
         rec.floor(f'units-history:{a}', 8)
         for b in UNIT_CONFIGS:
             rec.floor(f'units:switch:{a}->{b}', 6)
-    for ph in ('first', 'after-switch', 'carried'):
-        rec.floor(f'units:{ph}:default-atol-judged', 40)
-        rec.floor(f'units:{ph}:explicit-atol-judged', 40)
-    rec.floor('units:default-vs-explicit-compared', 300)
-    rec.floor('units:large-explicit-atol-before-default', 200)
-    rec.floor('units:results-compared-across-configurations', 1000)
-    rec.floor('units:carried-system-judged', 40)
+    for ph, low in (('first', 200), ('after-switch', 300), ('carried', 100)):
+        rec.floor(f'units:{ph}:default-atol-judged', low)
+        rec.floor(f'units:{ph}:explicit-atol-judged', low)
+    for a in UNIT_CONFIGS:
+        rec.floor(f'units:after-switch:default-atol-judged:{a}', 60)
+        rec.floor(f'units:first:default-atol-judged:{a}', 40)
+    for pt in PTYPES:
+        rec.floor(f'units:after-switch:default-atol-judged:{pt}', 100)
+    rec.floor('units:default-vs-explicit-compared', 800)
+    rec.floor('units:large-explicit-atol-before-default', 800)
+    rec.floor('units:results-compared-across-configurations', 1500)
+    rec.floor('units:carried-system-judged', 100)
     rec.floor('units-history:composed', 30)
     for pt in PTYPES:
         for en in ('direct', 'dispatch'):
